@@ -192,6 +192,13 @@ func (w *World) verifyFunc(key string, timeout int, all bool, only string) (*fun
 				return
 			}
 			r := decide(solve(q, timeout, all))
+			if r.verdict != "unsat" && r.verdict != "sat" && lockedNow[o.Name] {
+				// an obligation that was discharged on the unchanged tree and is now undecided: before it is reported,
+				// give every solver and seed three times the time (quantifier instantiation is a heuristic search)
+				if r2 := decide(solve(q, timeout*3, true)); r2.verdict == "unsat" || r2.verdict == "sat" {
+					r = r2
+				}
+			}
 			o.Result, o.Backend, o.Ms = r.verdict, r.backend, r.ms
 			if r.verdict == "sat" {
 				o.Model = getModel(q, timeout)
